@@ -38,6 +38,15 @@ CLAIMS = {
  'C14': dict(engine='mirsym', technique=BT + '; storage trace of a second backup of an unchanged tree, and of a backup resumed after a solver-chosen crash point',
    text='A second backup of an unchanged tree issues no write under d/ and records the same addresses; no run (including the follow-up after any crash point) writes a block that is already stored non-empty. Bounded to the listed cases.',
    note='Trusted: as C03.', design='§3 C14'),
+ 'C01': dict(engine='kani+mirsym', technique='Kani/CBMC proof harness over the compiled crate (real jiff + filetime code) for the mtime round trip, plus bounded symbolic execution of the MIR of restore()/restore_file/restore_symlink/apply_deferrals/set_permissions/set_owner over a file-system model and of backup() over the store model, z3',
+   text='Kani shows for every mtime in +-3e10 s with any nanosecond value that capture -> index fields -> IndexEntry::mtime -> FileTime is the identity without panic (a reachability twin guards vacuity). mirsym shows that restore reproduces kind, bytes, link target, mtime, all 12 mode bits and owner for files, an empty file, a nested file, directories and a symlink with symbolic attributes (chown permitted or not), and that a fault-free backup of the listed shapes records the source metadata and addresses resolving to exactly each file\'s bytes for every relation between sizes and the three options.',
+   note='Trusted: Kani/CBMC; MIR printer, mirsym + models, FS model (follow/no-follow and chown-clears-setuid rules from the man pages), store/source models, z3. The real directory walk, non-UTF-8 names and trees beyond the bound are outside; backup->restore is composed through the archive entry, not run end to end symbolically.', design='§3 C01'),
+ 'C16': dict(engine='mirsym', technique='bounded symbolic execution of the MIR of restore() and its helpers (including the real owner::unix::set_owner) over a file-system model with sentinels outside the destination; symlink target, owner presence and mode are solver variables; native replay into a sandbox',
+   text='For one-version archives and for an interrupted version stitched over a directory that became a symlink, with the link target chosen by the solver from upward, absolute, to-a-directory, to-a-file, "." and "..": no modelled system call creates, removes or changes (content, mode, owner, mtime) anything outside the destination; is_valid(p) implies p[1..] is relative without ".."; a non-empty destination without overwrite is refused before any mutating call.',
+   note='Trusted: as C01 for the FS model. Pre-existing hostile symlinks with overwrite, and the kernel\'s real follow semantics, are outside.', design='§3 C16'),
+ 'C18': dict(engine='mirsym', technique='bounded symbolic execution of the MIR of diff(), Diff::next, MergeTrees::next, EntryChange::diff_metadata, EntryMetadata::from and of backup() with a change callback, against an independently written classification; native replay on a raw archive + live tree',
+   text='For each presence pattern of up to three paths (stored only / live only / both) with kind chosen by the solver on each side and size, mtime, mode symbolic, stored owner present or absent, two link targets: diff (with and without include_unchanged) and the next backup\'s callback report exactly added, removed and changed paths with the right classification.',
+   note='Trusted: MIR printer, mirsym + models, Timestamp model, store/source models, z3. Directories and symlinks are not reported by the backup callback (files only, as the property says).', design='§3 C18'),
 }
 NA = {
  'C15': 'exclusion semantics live in globset/regex automata, which neither Kani nor the MIR interpreter can execute; a model of glob matching would verify the model, not conserve (DESIGN §4)',
@@ -69,9 +78,9 @@ m = {
            'baseline_off_cmd': 'cd /repo && cargo test --workspace --no-fail-fast --offline',
            'source_commits': [], 'add_only': True},
  'engines': [
-   {'name': 'mirsym', 'path': 'mirsym/', 'serves_properties': [p for p in CLAIMS if CLAIMS[p]['engine'] == 'mirsym'],
+   {'name': 'mirsym', 'path': 'mirsym/', 'serves_properties': [p for p in CLAIMS if 'mirsym' in CLAIMS[p]['engine']],
     'kind_free_text': 'own bounded symbolic executor for rustc MIR text (-Zunpretty=mir of /repo, regenerated every run), path conditions decided by z3, counterexamples replayed against the real crate by replay/'},
-   {'name': 'kani', 'path': 'kani/', 'serves_properties': [p for p in CLAIMS if CLAIMS[p]['engine'] == 'kani'],
+   {'name': 'kani', 'path': 'kani/', 'serves_properties': [p for p in CLAIMS if 'kani' in CLAIMS[p]['engine']],
     'kind_free_text': 'Kani 0.68 / CBMC 6.11 proof harnesses over the compiled crate for integer kernels'},
  ],
  'checks': checks,
